@@ -348,10 +348,12 @@ void encode_imm(struct instr *instrc) {
   } else if (TYPE(instrc->key, DATA_TRANSFER))
     encode_imm_data_transfer(instrc);
   // mask all bits except for the most significant byte
-  if ((instrc->opd[0].reg & MODE_MASK) < reg32) {
+  // (a `word` memory operand is sized like a 16-bit register)
+  bool mem_is_16 = instrc->mem_disp && instrc->keyword.is_word;
+  if ((instrc->opd[0].reg & MODE_MASK) < reg32 || mem_is_16) {
     DO_NOT_PAD(instrc->cons, instrc->reduced_imm, MAX_UNSIGNED_16BIT);
     if (((instrc->opd[0].reg & MODE_MASK) == reg16 ||
-         (instrc->opd[0].reg & MODE_MASK) == ext16) &&
+         (instrc->opd[0].reg & MODE_MASK) == ext16 || mem_is_16) &&
         instrc->cons <= MAX_UNSIGNED_8BIT)
       instrc->reduced_imm = false;
   }
